@@ -1,6 +1,14 @@
-// Copies ironbeam's src/window.rs (and its pre-fix revision) into OUT_DIR so that lib.rs can `include!` it.
-// The ironbeam checkout is the one named by the `ironbeam = { path = "…" }` line of the harness manifest.
-use std::{env, fs, path::PathBuf, process::Command};
+// C13: puts two texts into OUT_DIR so that lib.rs can `include!` them:
+//   current.rs — ironbeam's src/window.rs of the working tree the harness links (the checkout named by the
+//                `ironbeam = { path = "…" }` line of the harness manifest), with its serde lines removed;
+//   legacy.rs  — the VENDORED pre-fix text `harness/chkwin/legacy_window.rs` (checked in; origin recorded in its
+//                header). No `git` is involved.
+// Either text is first PROBE-COMPILED on its own with `$RUSTC` (std only, type-check only). A text that is missing
+// or does not compile stand-alone (it started to refer to crate-internal items, another dependency, a changed
+// `tumble` signature, …) is replaced by an API-compatible stub, `*_AVAILABLE` is false and `*_REASON` says why:
+// the harness (which all twenty checks share) still BUILDS, and harness/src/c13.rs reports the theorems that
+// depend on the missing copy as NOT VALIDATED — loudly (note + counters), never silently.
+use std::{env, fs, path::{Path, PathBuf}, process::Command};
 
 /// module-level `//!` docs are not allowed inside `include!`; turn them into plain comments
 fn strip_inner_docs(src: &str) -> String {
@@ -8,52 +16,97 @@ fn strip_inner_docs(src: &str) -> String {
         .collect::<Vec<_>>().join("\n") + "\n"
 }
 
+/// remove the only external dependency of src/window.rs (serde): `use serde…;` lines and the `Serialize` /
+/// `Deserialize` entries of single-line `#[derive(…)]` lists. Anything else that needs serde (`#[serde(…)]`,
+/// a multi-line derive) is left alone and makes the probe fail → the copy is reported unavailable.
+fn strip_serde(src: &str) -> String {
+    let mut out = String::new();
+    for l in src.lines() {
+        let t = l.trim_start();
+        if t.starts_with("use serde") && t.trim_end().ends_with(';') {
+            out.push_str("// (serde import removed by harness/relwin/build.rs)\n");
+            continue;
+        }
+        if t.starts_with("#[derive(") && t.trim_end().ends_with(")]") {
+            let indent = &l[..l.len() - t.len()];
+            let inner = &t.trim_end()["#[derive(".len()..t.trim_end().len() - 2];
+            let kept: Vec<&str> = inner.split(',').map(str::trim)
+                .filter(|x| !x.is_empty() && !matches!(x.rsplit("::").next().unwrap_or(""), "Serialize" | "Deserialize")).collect();
+            if kept.is_empty() { out.push_str(indent); out.push_str("// (serde derive removed)\n"); }
+            else { out.push_str(&format!("{indent}#[derive({})]\n", kept.join(", "))); }
+            continue;
+        }
+        out.push_str(l);
+        out.push('\n');
+    }
+    out
+}
+
+/// type-check `text` as the body of a module, plus the calls c13.rs makes; Ok(()) or the first error line
+fn probe(out: &Path, name: &str, text: &str) -> Result<(), String> {
+    let file = out.join(format!("probe_{name}.rs"));
+    let src = format!(
+        "#![allow(warnings)]\npub mod m {{\n{text}\n}}\npub fn probe(ts: u64, size: u64, off: u64) -> (u64, u64) {{\n    let w = m::Window::tumble(ts, size, off);\n    let n = m::Window::new(w.start, w.end);\n    (n.start, n.end)\n}}\n");
+    fs::write(&file, src).map_err(|e| format!("cannot write probe: {e}"))?;
+    let rustc = env::var("RUSTC").unwrap_or_else(|_| "rustc".into());
+    let o = Command::new(rustc)
+        .args(["--edition=2024", "--crate-type=lib", "--emit=metadata", "--cap-lints=allow", "--crate-name"]).arg(format!("probe_{name}"))
+        .arg("--out-dir").arg(out).arg(&file)
+        .output().map_err(|e| format!("cannot run rustc for the stand-alone probe: {e}"))?;
+    if o.status.success() { return Ok(()); }
+    let err = String::from_utf8_lossy(&o.stderr);
+    let first = err.lines().find(|l| l.starts_with("error")).unwrap_or("rustc failed").to_string();
+    Err(format!("does not compile stand-alone: {first}"))
+}
+
+const STUB: &str = "#[derive(Copy, Clone, Debug)]\npub struct Window { pub start: u64, pub end: u64 }\nimpl Window {\n    pub fn new(_start: u64, _end: u64) -> Self { panic!(\"window.rs copy unavailable\") }\n    pub fn tumble(_ts: u64, _size_ms: u64, _offset_ms: u64) -> Self { panic!(\"window.rs copy unavailable\") }\n}\n";
+
+fn emit(out: &Path, name: &str, text: Result<String, String>) {
+    let checked = text.and_then(|t| probe(out, name, &t).map(|()| t));
+    let (body, avail, reason) = match checked { Ok(t) => (t, "true", String::new()), Err(why) => (STUB.to_string(), "false", why) };
+    fs::write(out.join(format!("{name}.rs")), body).unwrap();
+    fs::write(out.join(format!("{name}_available.rs")), avail).unwrap();
+    fs::write(out.join(format!("{name}_reason.rs")), format!("{reason:?}")).unwrap();
+    if !reason.is_empty() {
+        println!("cargo:warning=C13 `{name}` source copy unavailable ({reason}); the theorems validated through it will be reported as NOT VALIDATED");
+    }
+}
+
 fn main() {
     let here = PathBuf::from(env::var("CARGO_MANIFEST_DIR").unwrap());
     let out = PathBuf::from(env::var("OUT_DIR").unwrap());
-    let manifest = here.join("..").join("Cargo.toml");
+    let harness = here.join("..");
+    let manifest = harness.join("Cargo.toml");
     println!("cargo:rerun-if-changed={}", manifest.display());
-    let text = fs::read_to_string(&manifest).expect("harness Cargo.toml");
-    let line = text.lines().find(|l| l.trim_start().starts_with("ironbeam") && l.contains("path")).expect("ironbeam path dependency");
-    let after = &line[line.find("path").unwrap()..];
-    let q1 = after.find('"').unwrap();
-    let q2 = after[q1 + 1..].find('"').unwrap();
-    let repo = PathBuf::from(&after[q1 + 1..q1 + 1 + q2]);
-    let win = repo.join("src").join("window.rs");
-    println!("cargo:rerun-if-changed={}", win.display());
-    println!("cargo:rerun-if-changed={}", repo.join(".git").join("HEAD").display());
-    let cur = fs::read_to_string(&win).expect("src/window.rs");
-    // The copy is compiled OUTSIDE the ironbeam crate: if the file refers to crate-internal items it cannot be
-    // compiled standalone. Fall back to an API-compatible stub then, so that the whole harness (all twenty
-    // checks share it) still builds; c13 sees CURRENT_AVAILABLE = false and skips the textual-copy cases.
-    let standalone = !cur.contains("crate::") && !cur.contains("super::") && cur.contains("pub struct Window") && cur.contains("pub fn tumble");
-    const STUB: &str = "pub struct Window { pub start: u64, pub end: u64 }\nimpl Window { pub fn tumble(_ts: u64, _size_ms: u64, _offset_ms: u64) -> Self { panic!(\"window.rs copy unavailable\") } }\n";
-    fs::write(out.join("current.rs"), if standalone { strip_inner_docs(&cur) } else { STUB.to_string() }).unwrap();
-    fs::write(out.join("current_available.rs"), if standalone { "true" } else { "false" }).unwrap();
+    println!("cargo:rerun-if-changed={}", here.join("..").join("relwin").join("build.rs").display());
 
-    // the commit that introduced the offset reduction; its parent is the pinned (pre-fix) code
-    let git = |args: &[&str]| -> Option<String> {
-        let o = Command::new("git").arg("-C").arg(&repo).args(args).output().ok()?;
-        if o.status.success() { Some(String::from_utf8_lossy(&o.stdout).into_owned()) } else { None }
-    };
-    let legacy = (|| {
-        let log = git(&["log", "--format=%H", "--reverse", "-Slet off = offset_ms % size_ms;", "--", "src/window.rs"])?;
-        let h = log.lines().next()?.trim().to_string();
-        if h.is_empty() { return None; }
-        let src = git(&["show", &format!("{h}^:src/window.rs")])?;
-        if src.contains("offset_ms % size_ms") || !src.contains("fn tumble") { return None; }
-        Some((h, src))
+    // ---- current text: <repo>/src/window.rs; <repo> = the `path` of the `ironbeam` dependency (a relative path is
+    // relative to the harness manifest, as cargo reads it)
+    let current = (|| -> Result<String, String> {
+        let text = fs::read_to_string(&manifest).map_err(|e| format!("cannot read the harness manifest: {e}"))?;
+        let line = text.lines().map(str::trim_start).find(|l| l.starts_with("ironbeam") && !l.starts_with('#') && l.contains("path"))
+            .ok_or("no `ironbeam = { path = … }` line in the harness manifest")?;
+        let after = &line[line.find("path").unwrap()..];
+        let q1 = after.find('"').ok_or("unquoted ironbeam path")?;
+        let q2 = after[q1 + 1..].find('"').ok_or("unquoted ironbeam path")?;
+        let mut repo = PathBuf::from(&after[q1 + 1..q1 + 1 + q2]);
+        if repo.is_relative() { repo = harness.join(repo); }
+        let win = repo.join("src").join("window.rs");
+        println!("cargo:rerun-if-changed={}", win.display());
+        let cur = fs::read_to_string(&win).map_err(|e| format!("cannot read {}: {e}", win.display()))?;
+        Ok(strip_serde(&strip_inner_docs(&cur)))
     })();
-    match legacy {
-        Some((h, src)) => {
-            fs::write(out.join("legacy.rs"), strip_inner_docs(&src)).unwrap();
-            fs::write(out.join("legacy_available.rs"), "true").unwrap();
-            fs::write(out.join("legacy_commit.rs"), format!("{h:?}")).unwrap();
-        }
-        None => {
-            fs::write(out.join("legacy.rs"), strip_inner_docs(&cur)).unwrap();
-            fs::write(out.join("legacy_available.rs"), "false").unwrap();
-            fs::write(out.join("legacy_commit.rs"), "\"\"").unwrap();
-        }
-    }
+    emit(&out, "current", current);
+
+    // ---- legacy text: vendored, checked in
+    let vend = harness.join("chkwin").join("legacy_window.rs");
+    println!("cargo:rerun-if-changed={}", vend.display());
+    let legacy = fs::read_to_string(&vend).map_err(|e| format!("vendored pre-fix text {} is missing: {e}", vend.display()))
+        .and_then(|t| {
+            // it must really be the pre-fix code: no offset reduction before the subtraction
+            if t.contains("offset_ms % size_ms") || !t.contains("let rel = ts - offset_ms;") {
+                Err("the vendored file is not the pre-fix text (`let rel = ts - offset_ms;` expected, no `offset_ms % size_ms`)".to_string())
+            } else { Ok(strip_inner_docs(&t)) }
+        });
+    emit(&out, "legacy", legacy);
 }
